@@ -17,6 +17,7 @@ import ast
 
 from ..core.cfg import cfg_of
 from ..core.defuse import rd_of, Expander, fmt_term
+from ..core import terms as T
 from ..core.loader import unparse, AnalysisError
 from ..rules import dispatch as D
 from ..rules.sign import SignEval, step_and_chunk_sites, MAYZERO, POS, UNK
@@ -108,6 +109,8 @@ def check(ctx):
     check_tiles(ctx, ANCHOR_MODULES, floor=2)
     check_scatter(ctx)
     check_unsort(ctx)
+    check_rebased_pointers(ctx)
+    check_placed_by_column_index(ctx)
     from .C13 import check_index_spaces
     check_index_spaces(ctx)
     sweep_generic_rules(ctx, ANCHOR_MODULES)
@@ -345,6 +348,109 @@ def sweep_generic_rules(ctx, anchored_modules):
                 continue
     ctx.note(f'thorough sweep: generic structural rules evaluated on {n} '
              'further instances outside the anchored modules (advisory)')
+
+
+def check_rebased_pointers(ctx, rule='R-SAMEVAL/pointers-rebased'):
+    """a reader that cuts rows [a, b) out of a CSR file returns the
+    pointer slice *re-based* to start at zero (`p - p.min()` / `p - p[0]`):
+    the pieces are later concatenated and each is assumed to start at 0.
+    Every return of such a function has to hand back the re-based form; a
+    shortcut that returns the raw slice of the file's pointer array puts
+    file offsets where local offsets are expected."""
+    db = ctx.db
+    n = 0
+    for fi in db.iter_functions():
+        if fi.module.short != 'utils.sparse_utils':
+            continue
+        cfg = cfg_of(fi)
+        rd = rd_of(fi)
+        ex = Expander(fi)
+        rets = [r for r in cfg.nodes if r.kind == 'return' and r.id in rd.live
+                and isinstance(r.ast.value, ast.Tuple)]
+        if len(rets) < 1:
+            continue
+        terms = [(r, [ex.expand(e, r.id) for e in r.ast.value.elts])
+                 for r in rets]
+
+        def rebased(t):
+            # X - X.min() / X - X[0] / X - min(X)
+            if t[0] == 'binop' and t[1] == 'Sub':
+                a, b = t[2], t[3]
+                if b[0] == 'call' and T.call_name(b) == 'min' and (
+                        T.call_receiver(b) == a or (b[2] and b[2][0] == a)):
+                    return a
+                if b[0] == 'sub' and b[1] == a and b[2] == ('const', '0'):
+                    return a
+            return None
+        # positions that some return re-bases
+        pos = set()
+        for (r, ts) in terms:
+            for k, t in enumerate(ts):
+                if rebased(t) is not None:
+                    pos.add((k, rebased(t)))
+        for (k, base) in sorted(pos, key=repr):
+            for (r, ts) in terms:
+                if k >= len(ts):
+                    continue
+                n += 1
+                t = ts[k]
+                ok = rebased(t) is not None or not any(
+                    x == base for x in T.subterms(t))
+                ctx.touch(fi)
+                ctx.ob(rule, f'{fi.qual}:return@{k}#{n - 1}', fi.loc(r.ast),
+                       ok,
+                       'the pointer slice is returned re-based to zero'
+                       if ok else
+                       f'`{unparse(r.ast)[:60]}` returns the raw pointer '
+                       'slice where the other return of the function '
+                       're-bases it to start at zero: file offsets end up '
+                       'where offsets into the piece are expected')
+    if n < 1:
+        raise AnalysisError('no re-based pointer return found in '
+                            'utils.sparse_utils')
+
+
+def check_placed_by_column_index(ctx, rule='R-SAMEVAL/placed-by-index'):
+    """when a run of stored values (a slice of `data`) is written into a
+    dense row, every value goes to the column its stored index names: the
+    column position of the store is the matching slice of `indices`.
+    Writing the run to a plain range of columns assumes the indices are
+    sorted and complete, which CSR files need not satisfy (anndata keeps
+    the order the columns were permuted into)."""
+    db = ctx.db
+    fi = db.fn('utils.sparse_utils:_csr_to_dense')
+    ctx.touch(fi)
+    cfg = cfg_of(fi)
+    rd = rd_of(fi)
+    ex = Expander(fi)
+    n = 0
+    for node in cfg.nodes:
+        st = node.ast
+        if not (node.id in rd.live and isinstance(st, ast.Assign)
+                and isinstance(st.targets[0], ast.Subscript)):
+            continue
+        v = ex.expand(st.value, node.id)
+        if not any(x == ('param', 'data') for x in T.subterms(v)):
+            continue
+        if v[0] != 'sub':
+            continue
+        n += 1
+        sl = st.targets[0].slice
+        parts = sl.elts if isinstance(sl, ast.Tuple) else [sl]
+        col = parts[-1]
+        ok = False
+        if not isinstance(col, ast.Slice):
+            tc = ex.expand(col, node.id)
+            ok = any(x == ('param', 'indices') for x in T.subterms(tc))
+        ctx.ob(rule, f'{fi.qual}:store#{n - 1}', fi.loc(st), ok,
+               'stored values are placed at the columns their indices name'
+               if ok else
+               f'`{unparse(st)[:60]}` writes a run of stored values to a '
+               'range of columns instead of the columns named by the '
+               'matching indices: a row whose indices are not in ascending '
+               'order gets its values under the wrong genes')
+    if n < 1:
+        raise AnalysisError('_csr_to_dense: no store of data values found')
 
 
 def check_unsort(ctx, rule='R-PERM/unsort-pair'):
